@@ -335,6 +335,11 @@ def run(res, ctx):
                         sheet = [list(r) for r in c18.build_sheet(base_acts, {"num": "float", "acct_int": False, "empty_str": False}, lay)]
                         sheet[1][ci] = w
                         qcases.append({"cells": sheet, "sort": True})
+            # regression (fix b2d4739): a conversion pair whose foreign-currency row has a net amount of 0
+            zp = [a for a in c18.corpus() if any(x.get("net") == "0" and x.get("action") == "FXT" for x in a["acts"])]
+            for c_ in zp:
+                qcases.append({"cells": c18.build_sheet(c_["acts"], c_["style"], c_["layout"]), "sort": True})
+                st["questrade-zero-fxt-regression"] += 1
             if qexe is not None and qcases:
                 for qc, o in zip(qcases, run_harness(qexe, "qt_sheet", qcases)):
                     st["evaluations"] += 1
